@@ -10,9 +10,11 @@ RULE = ("models = behaviours of spec/Pep.tla (12 function/operator classes x ste
 
 def select(t, c):
     step, prop, name, detail = c
+    o = t["solves"][step - 1]
+    if prop == "ALL" and o["opts"]["wrapper"] == "cvxpy":
+        return "C01|%s" % name, "solve %d (%s) of a valid model raised instead of returning a bound: %s" % (step, sc.solvestr(o), name)
     if prop != "C01":
         return None
-    o = t["solves"][step - 1]
     cls = sc.CLASSNAME.get(t["prog"]["cls"], "?")
     sig = "C01|%s|%s|%s" % (name, cls, o["opts"]["heur"])
     return sig, "solve %d (%s): %s (detail %s)" % (step, sc.solvestr(o), name, detail)
